@@ -2,7 +2,7 @@
 import struct
 from common import *
 
-RULE = ("0-12 notes with names of 0-20 bytes and descriptors of 0-64 bytes (all residues mod 4) added through one accessor, "
+RULE = ("0-12 notes with names of 0-20 bytes and descriptors of 0-64 bytes (all residues mod 4) added through one accessor (a third of the sequences also re-add descriptors by the pointer get_note() returned, i.e. a pointer into the section), "
         "read back through it and through a fresh accessor at every index plus count, count+1, size-1, size, 2^32-1 and random "
         "32-bit indices, in all 4 configurations; section bytes compared with the ABI encoding. Non-trivial = at least 2 notes "
         "and at least one out-of-range index probed.")
@@ -22,12 +22,22 @@ def spec_note_bytes(enc, typ, name, desc):
 
 def meta_from_lines(lines):
     ops, enc = [], "lsb"
+    descs = []          # descriptors of the notes in the section, in order
     for l in lines:
         t = l.split()
         if t[0] == "create":
             enc = t[2]
         elif t[0] == "noteadd":
             ops.append(("add", int(t[1]), int(t[2], 0), unhexs(t[3]), unhexs(t[4])))
+            descs.append(unhexs(t[4]))
+        elif t[0] == "noteaddself":
+            # add_note with the descriptor pointer/size that get_note( idx ) returned (a pointer into the section)
+            ix = int(t[4], 0)
+            if ix < len(descs) and len(descs[ix]) > 0:
+                ops.append(("add", int(t[1]), int(t[2], 0), unhexs(t[3]), descs[ix], "self"))
+                descs.append(descs[ix])
+            else:
+                ops.append(("absent",))
         elif t[0] == "notenew":
             ops.append(("new", int(t[1])))
         elif t[0] == "notenum":
@@ -46,7 +56,9 @@ def unhexs(h):
 def mk_case(cid, cfg, ops):
     lines = ["ctor plain", "create %s %s" % cfg, "addsec " + hx(b".note"), "secset 2 type 7", "secset 2 addralign 4"]
     for o in ops:
-        if o[0] == "add":
+        if o[0] == "addself":
+            lines.append("noteaddself %d %d %s %d" % (o[1], o[2], hx(o[3]), o[4]))
+        elif o[0] == "add":
             lines.append("noteadd %d %d %s %s" % (o[1], o[2], hx(o[3]), hx(o[4])))
         elif o[0] == "new":
             lines.append("notenew %d sec 2" % o[1])
@@ -117,10 +129,19 @@ def generate(rng, tier):
         k = rng.choice([0, 1, 2, 3, 5, 12]) if rng.random() < 0.5 else rng.randint(0, 12)
         ops = [("new", 0)]
         size = 0
+        alias = i % 3 == 1
+        have = []           # indices of notes with a non-empty descriptor, and the descriptors
         for j in range(k):
             name = rbytes(rng, rng.randint(0, 20), alphabet=range(1, 256))
             desc = rbytes(rng, rng.choice([0, 1, 2, 3, 4, 5, 8, 13, 64, rng.randint(0, 64)]))
-            ops.append(("add", 0, rval(rng, 32), name, desc))
+            if alias and have and rng.random() < 0.5:
+                # duplicate / re-tag an existing note: the descriptor handed to add_note() is the pointer get_note() returned
+                ix, desc = rng.choice(have)
+                ops.append(("addself", 0, rval(rng, 32), name, ix))
+            else:
+                ops.append(("add", 0, rval(rng, 32), name, desc))
+            if len(desc):
+                have.append((j, desc))
             size += len(spec_note_bytes("lsb", 0, name, desc))
             if rng.random() < 0.3:
                 ops.append(("num", 0))
@@ -146,6 +167,7 @@ def distribution(cases):
         for o in c.meta["ops"]:
             if o[0] == "add":
                 n += 1; d["notes"] += 1
+                d["descriptor_taken_from_the_section"] = d.get("descriptor_taken_from_the_section", 0) + (len(o) > 5)
                 d["empty_desc"] += (len(o[4]) == 0); d["empty_name"] += (len(o[3]) == 0)
             elif o[0] == "get":
                 if o[2] < n: d["gets_in_range"] += 1
